@@ -11,6 +11,67 @@ Lemma flat_map_if {A B} (f : A -> bool) (g : A -> B) l :
   flat_map (fun a => if f a then [g a] else []) l = map g (filter f l).
 Proof. induction l as [|a r IH]; simpl; auto. destruct (f a); simpl; rewrite IH; reflexivity. Qed.
 
+(* ---- the pilot matrix: past columns are never rewritten ---- *)
+Lemma zassoc_zset_other {A} k k' (v : A) m : k' <> k -> zassoc k' (zset k v m) = zassoc k' m.
+Proof.
+  intro D. unfold zset. simpl. destruct (k' =? k) eqn:E; [apply Z.eqb_eq in E; congruence|].
+  induction m as [|[a b] r IH]; simpl; auto.
+  destruct (a =? k) eqn:F; simpl.
+  - apply Z.eqb_eq in F. subst a. rewrite E. exact IH.
+  - destruct (k' =? a); auto.
+Qed.
+
+Lemma apply_past_columns cfg t ns sch ns' :
+  num_apply cfg t ns sch = Ok ns' ->
+  ns_ev ns' = ns_ev ns /\ ns_rates ns' = ns_rates ns /\ ns_peak ns' = ns_peak ns /\
+  forall c, c < t -> col_at (ns_pilots ns') c = col_at (ns_pilots ns) c.
+Proof.
+  unfold num_apply. destruct sch as [|[s0 r0] rest]; [intro H; inversion H; auto|].
+  destruct (existsb _ _); [discriminate|]. destruct (forallb _ _); [|discriminate].
+  intro H; inversion H; subst ns'; clear H. cbn [ns_ev ns_rates ns_peak ns_pilots].
+  repeat split; auto. intros c Lc. unfold col_at.
+  generalize (ns_pilots ns). generalize (seq 0 (List.length r0)).
+  induction l as [|k ks IH]; intro m; simpl; auto.
+  rewrite IH. rewrite zassoc_zset_other; auto. lia.
+Qed.
+
+Lemma charge_ev_pilots cfg x p v ns ns' :
+  charge_ev cfg x p v ns = Ok ns' -> ns_pilots ns' = ns_pilots ns /\ ns_peak ns' = ns_peak ns /\ ns_rates ns' = ns_rates ns.
+Proof.
+  unfold charge_ev. destruct (Gen.Battery_Q.Battery_charge _ _ _ _ _ _ _); [|discriminate].
+  intro H; inversion H; subst; auto.
+Qed.
+
+Lemma charge_stations_pilots cfg t o sts : forall i ns ns',
+  charge_stations cfg t o sts i ns = Ok ns' -> ns_pilots ns' = ns_pilots ns.
+Proof.
+  induction sts as [|st r IH]; intros i ns ns' H; [simpl in H; inversion H; auto|].
+  cbn [charge_stations] in H.
+  set (sp := set_pilot _ _ _ _ _ _) in H.
+  destruct (sp_error sp); [discriminate|].
+  destruct (occ_get (st_id st) o) as [x|]; [|eapply IH; eauto].
+  destruct (sp_charge_calls sp) as [|c cs]; [eapply IH; eauto|].
+  destruct c as [|a [|b [|d [|? ?]]]]; try (eapply IH; eauto; fail).
+  destruct (charge_ev cfg x a b ns) as [ns1|e] eqn:C; [|discriminate].
+  apply charge_ev_pilots in C. destruct C as (C & _). rewrite <- C. eapply IH; eauto.
+Qed.
+
+(* what the scheduler is shown at t as "last applied pilot" of a station is column t-1 of the matrix,
+   which the charging step of t-1 read and which nothing has rewritten since: applying a schedule at
+   period t only writes columns >= t; charging and storing rates never write the pilot matrix *)
+Lemma pilots_immutable cfg t o ns sch :
+  (forall ns', num_apply cfg t ns sch = Ok ns' ->
+     forall c idx, c < t -> pilot_at ns' idx c = pilot_at ns idx c) /\
+  (forall ns', num_charge cfg t o ns = Ok ns' -> ns_pilots ns' = ns_pilots ns) /\
+  ns_pilots (num_store cfg t o ns) = ns_pilots ns.
+Proof.
+  split; [|split].
+  - intros ns' H c idx Lc. unfold pilot_at. destruct (apply_past_columns _ _ _ _ _ H) as (_ & _ & _ & P).
+    rewrite P; auto.
+  - intros ns' H. eapply charge_stations_pilots; eauto.
+  - reflexivity.
+Qed.
+
 Section View.
   Variable cfg : netcfg.
 
